@@ -122,6 +122,11 @@ class Symbol(ExpressionToken):
         if extern_mapping:
             extern = compiler.symbols.get(extern_mapping[1])
             if extern:
+                if not state.get("file_status", {"compiled": True})["compiled"]:
+                    # The file's own definition takes precedence over an
+                    # exported one, and it may still follow further down:
+                    # an early evaluation must not settle for the export yet
+                    not_ready()
                 return extern
 
         not_ready()
